@@ -588,6 +588,29 @@ func (e *Engine) evalSpecCall(x *SExpr, env *SpecEnv) Value {
 		// string concatenation (uninterpreted; strings.TrimSuffix is characterised through it)
 		vs := evalArgs()
 		return VTerm{T: mkApp("str_concat", SStr, term(vs[0]), term(vs[1])), Typ: types.Typ[types.String]}
+	case "fresh":
+		// fresh(x): x was allocated during the call (its allocation number lies between the counter before and after)
+		if !e.trackAlloc {
+			return VTerm{T: tTrue, Typ: boolT}
+		}
+		x := term(e.evalSpec(args[0], env))
+		var lo *Term
+		if env.old != nil {
+			lo = e.allocCounter(env.old)
+		} else {
+			lo = mkConst("alloc0", SInt)
+		}
+		id := mkApp("alloc_id", SInt, x)
+		return VTerm{T: mkAnd(mkNot(mkEq(x, mkConst("nil", SRef))), mkCmp("<=", lo, id), mkCmp("<", id, e.allocCounter(env.st))), Typ: boolT}
+	case "distinct":
+		vs := evalArgs()
+		var cs []*Term
+		for i := range vs {
+			for j := i + 1; j < len(vs); j++ {
+				cs = append(cs, mkNot(mkEq(term(vs[i]), term(vs[j]))))
+			}
+		}
+		return VTerm{T: mkAnd(cs...), Typ: boolT}
 	case "sqlrs":
 		// sqlrs(stmt, args...): the result set of running the prepared statement with those arguments
 		vs := evalArgs()
